@@ -73,6 +73,19 @@ def obligations(tier):
               "removed), NUL-terminated, nothing invented; a local [d.d.d.d] domain is replaced by localiphost",
         expect_witnesses=lambda p: ["parsed"] + (["localiphost_substituted", "literal_not_ours", "literal_malformed"] if p["TPL"] else
                                                  ["bracketed_full_length", "source_route_stripped", "bracketless_colon_form", "quoted_terminator_kept"])))
+    # "never when ... the address exceeds the length limit": 900 bytes are outside every bound, so the limit logic is checked on a
+    # regenerated copy whose only edit is the constant (900 -> 13), with a localiphost name longer than the literal it replaces
+    obls.append(Obl("addrparse_limit", "addrparse.c",
+        progs=[Prog("qmail-smtpd.c", nomain=True, cut=["blast"], sub=[(r"if \(addr\.len > 900\) return 0;", "if (addr.len > 13) return 0;", 1)])],
+        repo=STRALLOC + ["str_chr.c", "byte_rchr.c", "ip.c", "scan_ulong.c"],
+        lib=["ideal_substdio.c", "arena_stralloc.c"], defines={"ARENA_CAP": 32, "ARENA_SLOTS": 1, "LIMIT": 13},
+        sysrename=["_exit", "time"], grid=[{"N": 14, "TPL": 1}], unwind_default=lambda p: p["N"] + 16, timeout=1500,
+        functions=["qmail-smtpd.c:addrparse (length limit scaled 900 -> 13)"],
+        cuts=["ipme_is -> symbolic verdict", "constant 900 -> 13 in the regenerated copy (parametric check of the limit logic)"],
+        assumes=["template <x@[d.d.d.d + 3 symbolic bytes; localiphost on/off with a 12-byte name; limit 13"],
+        outside=["the real constant 900 is not executed"],
+        claim="an address is refused as too long iff the address as rewritten (after the localiphost substitution) exceeds the limit",
+        expect_witnesses=["parsed", "too_long_after_substitution"]))
     obls.append(Obl("rcpthosts_ref", "rcpthosts.c",
         progs=[Prog("rcpthosts.c")],
         repo=["byte_rchr.c", "case_lowerb.c", "stralloc_opyb.c", "byte_copy.c"],
